@@ -1,6 +1,7 @@
 package vc
 
 import (
+	"fmt"
 	"runtime"
 	"sync"
 	"sync/atomic"
@@ -16,7 +17,14 @@ var memExceeded atomic.Bool
 var watchdogOnce sync.Once
 
 const memLimitBytes = 6 << 30
+const memHardLimitBytes = 14 << 30
 const unitTimeLimit = 240 * time.Second
+
+// hardAbort is installed by the property runner: it reports the unit being processed as
+// undecidable within the verifier's resources (a VIOLATION line with a replay file) and
+// exits with status 1. It is the last resort when the executor does not reach one of
+// its cooperative check points while memory keeps growing.
+var hardAbort func(reason string)
 
 func startWatchdog() {
 	watchdogOnce.Do(func() {
@@ -27,6 +35,9 @@ func startWatchdog() {
 				runtime.ReadMemStats(&ms)
 				if ms.HeapAlloc > memLimitBytes {
 					memExceeded.Store(true)
+				}
+				if ms.HeapAlloc > memHardLimitBytes && hardAbort != nil {
+					hardAbort(fmt.Sprintf("the verifier used more than %d GB while processing this unit (state explosion)", memHardLimitBytes>>30))
 				}
 			}
 		}()
